@@ -48,7 +48,7 @@ Clauses(i, pre, e, post) ==
   CASE e.op = "restart" ->
          (IF \E t \in Subs(i) : post.store[t] # None /\ post.lookup[t] # post.store[t] THEN {"RestartSame"} ELSE {})
     \cup (IF ~Injective(post.lookup) THEN {"RestartUnique"} ELSE {})
-  [] e.op \in {"allocf", "releasef", "renewf"} /\ IsPersist(i) ->
+  [] e.op \in {"allocf", "allocmf", "releasef", "renewf"} /\ IsPersist(i) ->
          (IF ~e.ok /\ post.lookup[s] # post.store[s] THEN {"FailAgreement"} ELSE {})
   [] e.op = "rput" /\ e.ok ->
          (IF (\A t \in Subs(i) \ {s} : pre.lookup[t] # e.arg) /\ post.lookup[s] # e.arg THEN {"RemoteApplied"} ELSE {})
